@@ -262,15 +262,24 @@ def write_crate(root, name, files, features=()):
 # --------------------------------------------------------------------------
 # Kani runner
 
-CHECK_RE = re.compile(r'^Check (\d+): (.+?)[ \t]*\n\s*- Status: (\w+)\s*\n\s*- Description: "(.*)"\s*\n(?:\s*- Location: (.*)\n)?', re.M)
+CHECK_RE = re.compile(r'^Check (\d+): (.+?)[ \t]*\n\s*- Status: (\w+)\s*\n\s*- Description: "(.*?)"[ \t]*\n(?:\s*- Location: (.*)\n)?', re.M | re.S)
 
 
 def parse_kani(out):
     r = {'checks': 0, 'success': 0, 'failed': [], 'unreachable': 0, 'undetermined': 0,
          'covers': {}, 'verdict': None, 'time': None, 'unwind_fail': False, 'compile_error': False,
          'vars': None, 'clauses': None}
-    for m in CHECK_RE.finditer(out):
-        _, cid, status, desc, loc = m.groups()
+    for blk in re.split(r'^Check \d+: ', out, flags=re.M)[1:]:
+        lines = blk.split('\n')
+        cid = lines[0].strip()
+        ms = re.search(r'^\s*- Status: (\w+)', blk, flags=re.M)
+        md = re.search(r'^\s*- Description: "(.*?)"[ \t]*$(?=\n\s*- Location|\n\s*$|\n*\Z)', blk, flags=re.M | re.S)
+        ml = re.search(r'^\s*- Location: (.*)$', blk, flags=re.M)
+        if not ms:
+            continue
+        status = ms.group(1)
+        desc = ' '.join(md.group(1).split()) if md else ''
+        loc = ml.group(1) if ml else ''
         if '.cover.' in cid:
             r['covers'][desc] = status
             continue
